@@ -224,7 +224,8 @@ def run_inprocess(out, pid, n, harness, findings, local_only=False):
         for faults in ("e", "n,e", "n,n,e", "f", "n,f", "n,n,f", "4", "n,4"):
             lines.insert(0, "case\t%s\tc:A:w:write:%s:%s\tc:A:w:load:%s\tc:A:l:load:%s\tc:B:w:load:%s" % (faults, d, vlib.hx(BIG), d, d, d))
         # ... and read back on machine B through the wrapper while the remote body fails mid-stream (then again, then locally)
-        for faults in ("n,n,m", "n,n,m,m", "n,n,n,m"):
+        # (the write is one remote call, a PUT: the blob is not in the local cache, so nobody asks the remote first)
+        for faults in ("n,m", "n,m,m", "n,m,n", "n,n,m", "n,n,m,m", "n,n,n,m"):
             lines.insert(0, "case\t%s\tc:A:w:write:%s:%s\tc:B:w:load:%s\tc:B:w:load:%s\tc:B:l:load:%s" % (faults, d, vlib.hx(BIG), d, d, d))
         # the situations of finding C08-F1 (repaired), always exercised: a blob that is in A's local cache only -- written without
         # the remote by an earlier process / asked for with Cas.Exists (local-OR-remote, remembered in the exists-memo) before
